@@ -216,6 +216,9 @@ def main() -> int:
                 # ... and on a core.xml as another producer writes it (mixed-content keywords, xml:lang, another child order)
                 if name == "values" and h[0]["kind"] == "empty":
                     jobs.append(("%s:%d:frn" % (name, i), [{"op": "init", "kind": "foreign"}] + h[1:]))
+                # ... and on a core.xml whose root declares only the namespaces it uses (no dcterms, no xsi): the date properties
+                if name == "values" and h[0]["kind"] == "empty" and h[1]["op"] == "SetDate":
+                    jobs.append(("%s:%d:spr" % (name, i), [{"op": "init", "kind": "sparse"}] + h[1:]))
             per_cfg[name] = {"alphabet": alpha, "assignments": na, "reopens": nr, "histories": r.distinct, "leaf_histories": len(leaves),
                              "scenarios": len(jobs) - n0, "tlc_generated": r.generated, "tlc_wall_s": round(r.wall, 1), "lexical_forms": ntab}
         for op in OPS:
@@ -251,7 +254,7 @@ def main() -> int:
     byid = {j[0]: j for j in jobs}
     trid = {t["id"]: t for t in traces}
     observed, nbadsteps = {}, 0
-    korder = {"empty": 0, "absent": 1, "template": 2, "foreign": 3}
+    korder = {"empty": 0, "absent": 1, "template": 2, "foreign": 3, "sparse": 4}
 
     def wkey(v):          # deterministic witnesses: shortest history, plainest package, enumeration order
         h, parts = byid[v["id"]][1], v["id"].split(":")
